@@ -8,7 +8,8 @@ CLAIM = ('Decides statically, on the RV64GC configuration: the back-end and its 
          'CBRANCH constants are right for all 16 shifts, the jump target is the last writer of the branch register, each branch form is used only within its encodable range and scatters the distance bits as the ISA demands; '
          'emitImm32 splits every 32-bit constant correctly and uses addiw after lui; every IMUL_RCP literal is stored where the emitted load reads it, inside the pool and clear of the other literals; scratchpad mask selection equals the decoder\'s and '
          'the mask / E-mask literals and registers line up with the template; ISUB_R does not negate before sign extension; the SuperscalarHash emitter handles all 14 kinds; per-instruction code fits the reserve; RW/RX/RWX helpers and mapping sizes are consistent. '
-         'The meaning of the emitted RV64 words beyond the branch/immediate encodings and of the hand-written runtime is not decided; the vector (RVV) code path is not analysed.')
+         'The meaning of the emitted RV64 words beyond the branch/immediate encodings and of the hand-written runtime is not decided; the vector (RVV) code path is not analysed.'
+         ' The far CBRANCH form is decoded from the emitted constant (branch-if-not-zero over the 4-byte jal).')
 LEVEL_NOTE = 'Trusted: clang cross parse with host libstdc++ headers plus stub headers; RISC-V instruction semantics and the B/J/CB encoding tables written into the checker; the hand-written runtime jit_compiler_rv64_static.S (label distances, literal words and literal loads are read).'
 EXPLANATION = 'PORT-TYPECHECK(K3), TAB-OPC, LW-SIB, SPLIT-SIB, RCP-NOOP, CBR-BITS/TARGET, RV-BRANCH-RANGE, RV-BRANCH-ENC, RV-IMM32, RV-IMM32-SPLIT, RV-RCPPOOL, MEM-JITMASK, RV-EMASK, IMM-NEG, SS-EXH, CG-SIZE-RV64, WX-ARCH, A64-EMASK.'
 
